@@ -152,6 +152,8 @@ def classify(f, ctx):
     if f["kind"] != "CONFIG_DIFF:SET:missing":      # rows present with caching off are missing with caching on
         return None
     pc = f["case"]
+    if pc["provider"] != "multi" or len(pc["case"]["kinds"]) < 3:
+        return None     # K05's precondition: a plain condition query over >= 3 variables (eqlmon/classify.py)
     from ..shard import reset_eql_state
     try:
         reset_eql_state()
